@@ -110,6 +110,7 @@ func Load(overlay map[string][]byte, env []string, controls map[string]bool) (*C
 		c.Funcs = append(c.Funcs, fn)
 	}
 	sort.Slice(c.Funcs, func(i, j int) bool { return c.Key(c.Funcs[i]) < c.Key(c.Funcs[j]) })
+	lastCtx = c
 	for _, fn := range c.Funcs {
 		k := c.Key(fn)
 		if _, dup := c.FuncByKey[k]; !dup {
@@ -118,6 +119,9 @@ func Load(overlay map[string][]byte, env []string, controls map[string]bool) (*C
 	}
 	return c, nil
 }
+
+// lastCtx: the most recently loaded program (helpers without a Ctx parameter use it to enumerate functions).
+var lastCtx *Ctx
 
 func (c *Ctx) inModule(fn *ssa.Function) bool {
 	if fn.Synthetic != "" && fn.Origin() == nil && fn.Parent() == nil {
